@@ -166,7 +166,7 @@ func checkScanFilter(w *World, r *Report, tm *Terms, rule string) {
 						continue
 					}
 					bo, ok := iff.Cond.(*ssa.BinOp)
-					if !ok || bo.Op != token.EQL {
+					if !ok || (bo.Op != token.EQL && bo.Op != token.NEQ) {
 						continue
 					}
 					l, rt := tm.Of(fr, bo.X), tm.Of(fr, bo.Y)
@@ -177,7 +177,12 @@ func checkScanFilter(w *World, r *Report, tm *Terms, rule string) {
 						return (isField(t, "Id") || isField(t, "AuctionId")) && !t.Any(func(x *Term) bool { return x.V == ssa.Value(c) })
 					}
 					if (isElemAuc(l) && isOwn(rt)) || (isElemAuc(rt) && isOwn(l)) {
-						guard = bb.Succs[0]
+						// the successor taken when the ids are equal
+						if bo.Op == token.EQL {
+							guard = bb.Succs[0]
+						} else {
+							guard = bb.Succs[1]
+						}
 					}
 				}
 				// every use of an element (other than the AuctionId comparison) must be dominated by the guard's true edge
